@@ -23,7 +23,10 @@ def run_shard(prop, tier, seed, shard, nshards, partial_path=None):
     # reproducible from (property, seed, shard); workloads re-seed per case where they replay
     ctx.seed_case('shard-start', tier, shard, nshards)
     t0 = time.time()
-    mod.run(ctx)
+    try:
+        mod.run(ctx)
+    except core.AbortShard:
+        ctx.inconclusive_because('shard %d stopped after %d confirmed non-terminating calls' % (shard, ctx.confirmed_hangs))
     res = ctx.result()
     res['wall_s'] = time.time() - t0
     return res
